@@ -8,34 +8,34 @@ HOME = os.path.dirname(os.path.dirname(os.path.abspath(__file__)))
 
 # id -> (level, technique, level text, level note, design section)
 T = {
- 'C01': ('exploration', 'Hypothesis-generated creation inputs and creation sequences + exhaustive type/layout/form grids vs NumPy reference (bit-pattern round-trip, chunklen metamorphic relation incl. NumPy-integer chunk lengths, iterator chunks around 4 KiB / 64 KiB)',
+ 'C01': ('exploration', 'Hypothesis-generated creation inputs and creation sequences + exhaustive type/layout/form grids vs NumPy reference (bit-pattern round-trip, chunklen metamorphic relation incl. NumPy-integer chunk lengths, iterator chunks around 4 KiB / 64 KiB / 1 MiB, every NumPy spelling of the dtype argument, shapes written with NumPy integers)',
          'generated search over dtype x byte order x layout x shape x input form x dtype argument x chunklen against np.asarray/np.full computed independently; bit patterns compared; rejection leaves the parent directory snapshot unchanged',
          'NumPy is the reference; casts NumPy leaves undefined (NaN/out-of-range float->int) are not generated', '4/C01'),
  'C02': ('exploration', 'model-based histories decoded after every step by an independent raw decoder (three-way model = API = raw files) + exhaustive type table',
          'every completed step of generated histories is decoded from the files alone by a decoder that shares no code with Darr and compared with the NumPy model and the API',
          'the decoder implements docs/design.rst + README text; NumPy frombuffer is trusted for reinterpretation', '4/C02'),
- 'C03': ('exploration', 'model-based stateful testing: generated op histories (bounded-exhaustive short + Hypothesis long; incl. failing appends, sibling objects, delete-and-recreate, lazily observed live handle) in lock-step with a NumPy ndarray model',
+ 'C03': ('exploration', 'model-based stateful testing: generated op histories (bounded-exhaustive short + Hypothesis long; incl. failing and interrupted appends, Darr arrays as operands, operands up to 64 MiB in every memory layout, sibling objects, delete-and-recreate, lazily observed live handle) in lock-step with a NumPy ndarray model; descriptor watch with amplification',
          'op histories over append/iterappend/setitem/truncate/mode/reopen compared after every step with an ndarray model on live and fresh handles, prefix bytes compared on the raw file',
          'NumPy concatenate/slicing semantics are the model', '4/C03'),
- 'C04': ('exploration', 'model-based stateful testing of RaggedArray against a list-of-ndarrays model (bounded-exhaustive short + Hypothesis long and grow/shrink/regrow histories; a sample re-run in a child interpreter under the C locale)',
+ 'C04': ('exploration', 'model-based stateful testing of RaggedArray against a list-of-ndarrays model (bounded-exhaustive short + Hypothesis long and grow/shrink/regrow histories, appends that fill or overfill the index type, 5000-subarray arrays; a sample re-run in a child interpreter under the C locale)',
          'generated histories compared after every step with a list-of-arrays model on live and fresh handles, all k and generated iter_arrays triples',
          'Python list slicing / range semantics are the model', '4/C04'),
- 'C05': ('exploration', 'invariant over generated ragged histories checked by an independent raw decoder of values/, indices/ and the three JSON files',
+ 'C05': ('exploration', 'invariant over generated ragged histories (incl. appends beyond the range of the index type) checked by an independent raw decoder of values/, indices/ and the three JSON files',
          'structural invariant (contiguous index rows, last end = N, descriptor consistency) evaluated from the raw files after every step of generated histories',
          'decoder implements the documented format only', '4/C05'),
- 'C06': ('exploration', 'complete enumeration of the generated-program structure space; Python-family code executed, foreign dialects run in reference interpreters; round-trip oracle on distinct values',
+ 'C06': ('exploration', 'complete enumeration of the generated-program structure space plus generated path spellings, directory names, array sizes up to 128 MiB and handle histories; Python-family code executed, foreign dialects run in reference interpreters; round-trip oracle on distinct values',
          'every (type, byte order, shape, language, path mode) program is executed (Python family) or interpreted by a per-dialect reference interpreter and must reproduce the stored values with the right axes; offer table parsed from docs/readcode.rst',
          'reference interpreters encode the documented semantics of fread/readBin/mget/read!/read_binary/BinaryReadList/FileTools[Binary][Read]; no foreign runtime exists offline', '4/C06'),
- 'C07': ('exploration', 'enumerated + generated ragged programs; accessor evaluated for every k in reference interpreters / exec; compared with the list-of-arrays model',
+ 'C07': ('exploration', 'enumerated + generated ragged programs (also large value / index arrays, odd directory names, legacy descriptions); accessor evaluated for every k in reference interpreters / exec; compared with the list-of-arrays model',
          'each generated ragged program is run and its accessor evaluated for every valid k; example statement, offer rule and no-side-effects checked',
          'same reference interpreters as C06', '4/C07'),
  'C08': ('exploration', 'model-based histories; README bytes compared with text regenerated from a fresh handle plus independent regex extraction against the model',
          'after every step of generated Array/RaggedArray histories README.txt must equal the documentation of the current on-disk state',
          'readcodetxt() of a freshly opened handle is the reference text; independent field extraction guards against a wrong generator', '4/C08'),
- 'C09': ('fault_enumeration', 'enumerated failure positions/kinds incl. kernel-enforced short writes (RLIMIT_FSIZE in forked children) + Hypothesis-generated failing iterables; post-state vs model',
+ 'C09': ('fault_enumeration', 'enumerated failure positions/kinds incl. kernel-enforced short writes (RLIMIT_FSIZE) and descriptor exhaustion (RLIMIT_NOFILE) in forked children + Hypothesis-generated failing iterables (any exception class incl. KeyboardInterrupt); post-state vs model',
          'every failure position and kind in bounded append scenarios, real partial writes injected via RLIMIT_FSIZE at enumerated byte offsets; afterwards the array must open and equal original + completed chunks',
          'RLIMIT_FSIZE stands in for a full disk; offsets are relative to chunk boundaries on >=64 KB files', '4/C09'),
- 'C10': ('fault_enumeration', 'enumerated failure positions/kinds for ragged appends incl. RLIMIT_FSIZE short writes on values and indices files; post-state vs list model + raw decoder',
+ 'C10': ('fault_enumeration', 'enumerated failure positions/kinds for ragged appends incl. RLIMIT_FSIZE short writes on values and indices files and descriptor exhaustion (RLIMIT_NOFILE); failing iterables of any exception class; post-state vs list model + raw decoder',
          'every failure position/kind in bounded ragged append scenarios incl. index overflow and refused writes; afterwards the ragged array opens, is well-formed and equals original + completed subarrays',
          'as C09', '4/C10'),
  'C11': ('exploration', 'complete enumeration of the mutator x state x how-read-only matrix + Hypothesis histories of mode switches; directory snapshot oracle',
@@ -44,16 +44,16 @@ T = {
  'C12': ('exploration', 'Hypothesis-generated op lists (index reads/writes interleaved with contexts and live iterators of any access mode, mode assignments), differential against NumPy indexing on an in-memory reference; /proc/self/fd and maps observed',
          'generated basic/advanced index reads and writes must match NumPy (value or exception class), be detached copies, be durable in the raw file and leave no descriptor or map open',
          'NumPy indexing is the reference', '4/C12'),
- 'C13': ('exploration', 'model-based stateful testing of MetaData against a dict pushed through an independent JSON normaliser (bounded-exhaustive short + Hypothesis long sequences)',
+ 'C13': ('exploration', 'model-based stateful testing of MetaData against a dict pushed through an independent, type-strict JSON normaliser (bounded-exhaustive short + Hypothesis long sequences; equal-but-different values; descriptor watch with amplification)',
          'op sequences over setitem/update/pop/popitem/del/reopen compared after every step with a dict model through every read accessor on live and fresh handles; file existence iff non-empty',
          'json round-trip semantics of the standard library define the normaliser', '4/C13'),
- 'C14': ('exploration', 'complete enumeration for n<=N plus Hypothesis-generated large values and ask-change-ask histories against a brute-force frame-list oracle',
+ 'C14': ('exploration', 'complete enumeration for n<=N plus Hypothesis-generated large values and ask-change-ask histories (two iterations advanced in turn) against a brute-force frame-list oracle',
          'iterindices/iterchunks/fit_frames compared with a while-loop definition of the frames for every parameter tuple up to a bound, invalid classes must raise ValueError',
          'none beyond NumPy slicing for chunk contents', '4/C14'),
- 'C15': ('exploration', 'Hypothesis-generated sources/targets: copy equals astype reference, independence under post-copy mutation (snapshots), archive extraction byte-identical',
+ 'C15': ('exploration', 'Hypothesis-generated sources/targets and complete dtype-spelling grid: copy equals astype reference, independence under post-copy mutation (snapshots), refused copy before a valid one, archive extraction byte-identical',
          'copies compared with src.astype(dtype) incl. empty sources, mutation of one side leaves the other side\'s snapshot unchanged, tar extraction equals the directory snapshot',
          'tarfile from the standard library is trusted for extraction', '4/C15'),
- 'C16': ('exploration', 'generated foreign-content placements x targets x call forms x creating functions; recursive byte snapshot of target and parent as oracle',
+ 'C16': ('exploration', 'generated foreign-content placements x targets x call forms (object, str, Path, symlink, dot) x creating functions x flag spellings; recursive byte snapshot of target and parent as oracle',
          'foreign files/dirs/symlinks must survive delete and overwrite, wrong kinds are refused with TypeError, overwrite=False changes nothing',
          'snapshot compares content, kind and link targets', '4/C16'),
  'C17': ('fault_enumeration', 'crash-point enumeration at source-line granularity (sys.settrace + directory materialisation) plus synthesised torn writes; open-or-legitimate-state oracle',
@@ -62,10 +62,10 @@ T = {
  'C18': ('exploration', 'complete single-field corruption matrix + Hypothesis/atheris mutated descriptors; must-raise oracle and open-implies-raw-decoder-agrees invariant',
          'every single-field corruption and size mismatch must make Array/RaggedArray/open raise, delete/truncate by path raise TypeError with snapshot unchanged',
          'validity of a descriptor is judged by the independent decoder', '4/C18'),
- 'C19': ('exploration', 'bounded-exhaustive + Hypothesis-generated interleavings of generator/context/read/write actions (four generator parameter sets, writes next to a generator position), each run in a forked child against an in-memory model',
+ 'C19': ('exploration', 'bounded-exhaustive + Hypothesis-generated interleavings of generator/context/read/write actions (five generator parameter sets, writes next to a generator position, failing reads and refused writes), each run in a forked child against an in-memory model',
          'schedules of iterchunks generators, contexts, reads and writes on one Array run in forked children; crash, wrong value, lost write or leaked descriptor is a violation',
          'single-threaded interleavings only; the harness owns the schedule', '4/C19'),
- 'C20': ('exploration', 'complete method x protected target x spelling x mode x way-of-opening matrix + generated user-file round-trips, also in a child interpreter under the C locale (+ atheris path fuzzing); snapshot oracle',
+ 'C20': ('exploration', 'complete method x protected target x spelling x mode (all 71 writing mode strings) x way-of-opening matrix + generated user-file round-trips, also in a child interpreter under the C locale (+ atheris path fuzzing); snapshot oracle',
          'every public DataDir mutator with every spelling of every protected name must raise OSError and leave the snapshot unchanged; user files round-trip',
          'spellings are resolved relative to the array directory', '4/C20'),
 }
@@ -102,7 +102,7 @@ def main():
             'add_only': True,
         },
         'engines': [{'name': 'pbt', 'path': 'vlib/', 'serves_properties': [c['property_id'] for c in checks],
-                     'kind_free_text': 'Hypothesis 6.168 (seeded, spec-first strategies, shrinking), bounded-exhaustive enumeration over 16 forked shards, fault injection via RLIMIT_FSIZE/settrace, atheris for byte-level fuzzing, child interpreters under another locale (vlib/envrun.py), crash isolation (a case that kills its worker is re-run in a forked child and reported)'}],
+                     'kind_free_text': 'Hypothesis 6.168 (seeded, spec-first strategies, shrinking), bounded-exhaustive enumeration over 16 forked shards, fault injection via RLIMIT_FSIZE / RLIMIT_NOFILE / settrace, a descriptor watch around every case (a case that leaves descriptors open is repeated under a small descriptor budget), atheris for byte-level fuzzing, child interpreters under another locale (vlib/envrun.py), crash isolation (a case that kills its worker is re-run in a forked child and reported)'}],
         'checks': checks,
         'not_applicable': na,
         'notes': 'Each check: replays the committed regression corpus replays/<ID>/ first, then the generated search; exit 2 = harness problem/inconclusive, never a violation. DARR_SRC=<dir> points a check at a scratch copy (mutation testing). known_findings.json lists open/fixed findings.',
